@@ -23,6 +23,28 @@ __thread PSession *g_cur_session = nullptr;
 __thread std::string *g_capture = nullptr;      // where printed text of the current task goes (declared in session.hpp)
 
 static const size_t CANARY = 64;
+
+// Where a C-string argument lives is part of the caller simulation: half of the calls pass an exact-size heap block
+// (an over-read traps), the other half pass ONE process-wide scratch slot that every task reuses, the way a caller
+// composes names in a stack slot or a static buffer. A library that remembers anything about an argument by its
+// address (a memoised strlen, a cached pointer) then sees the same address with different contents.
+static char g_arg_slot[1 << 16];
+static std::atomic<int> g_slot_busy(0);     // a library call that was handed the slot is still in flight (it may be parked at a yield point)
+static thread_local bool t_holds_slot = false;
+static void slot_release() { if (t_holds_slot) { t_holds_slot = false; g_slot_busy = 0; } }
+static const uint8_t *cstr_arg(const Bytes &text, uint64_t selector, Block &owned) {
+    int expect = 0;
+    if ((selector & 1) && text.size() + 1 <= sizeof g_arg_slot && g_slot_busy.compare_exchange_strong(expect, 1)) {
+        t_holds_slot = true;
+        if (!text.empty()) memcpy(g_arg_slot, text.data(), text.size());
+        g_arg_slot[text.size()] = 0;
+        return (const uint8_t *)g_arg_slot;
+    }
+    owned = block_alloc(text.size() + 1, 0);
+    if (!text.empty()) memcpy(owned.p, text.data(), text.size());
+    owned.p[text.size()] = 0;
+    return owned.p;
+}
 // every entry into library code is bracketed, so that libc wraps and the allocator gate can tell library calls from harness calls
 #define LIB(x) do { g_in_library++; x; g_in_library--; } while (0)
 
@@ -211,8 +233,8 @@ __attribute__((noinline)) void PSession::do_call(const Op &op, Outcome &o) {
         case P_GET_TYPE: LIB(o.type = (int)binson_parser_get_type(p)); o.ret = true; break;
         case P_FIELD: {
             Bytes nm = op.b; size_t z = 0; while (z < nm.size() && nm[z]) z++; nm.resize(z);
-            arg = block_alloc(nm.size() + 1, 0); if (!nm.empty()) memcpy(arg.p, nm.data(), nm.size()); arg.p[nm.size()] = 0;
-            LIB(o.ret = binson_parser_field(p, (const char *)arg.p)); break;
+            const char *np = (const char *)cstr_arg(nm, calls, arg);
+            LIB(o.ret = binson_parser_field(p, np)); break;
         }
         case P_FIELD_LEN: {
             arg = block_alloc(op.b.size(), 0); if (!op.b.empty()) memcpy(arg.p, op.b.data(), op.b.size());
@@ -220,8 +242,8 @@ __attribute__((noinline)) void PSession::do_call(const Op &op, Outcome &o) {
         }
         case P_FIELD_ENS: {
             Bytes nm = op.b; size_t z = 0; while (z < nm.size() && nm[z]) z++; nm.resize(z);
-            arg = block_alloc(nm.size() + 1, 0); if (!nm.empty()) memcpy(arg.p, nm.data(), nm.size()); arg.p[nm.size()] = 0;
-            LIB(o.ret = binson_parser_field_ensure(p, (const char *)arg.p, (binson_type)(op.c % 10))); break;
+            const char *np = (const char *)cstr_arg(nm, calls, arg);
+            LIB(o.ret = binson_parser_field_ensure(p, np, (binson_type)(op.c % 10))); break;
         }
         case P_FIELD_ENS_LEN: {
             arg = block_alloc(op.b.size(), 0); if (!op.b.empty()) memcpy(arg.p, op.b.data(), op.b.size());
@@ -252,8 +274,8 @@ __attribute__((noinline)) void PSession::do_call(const Op &op, Outcome &o) {
         case P_GET_DOUBLE: { double d = 0; LIB(d = binson_parser_get_double(p)); memcpy(&o.dbits, &d, 8); o.ret = true; break; }
         case P_STR_EQ: {
             Bytes s = op.b; size_t z = 0; while (z < s.size() && s[z]) z++; s.resize(z);
-            arg = block_alloc(s.size() + 1, 0); if (!s.empty()) memcpy(arg.p, s.data(), s.size()); arg.p[s.size()] = 0;
-            LIB(o.ret = binson_parser_string_equals(p, (const char *)arg.p)); break;
+            const char *sp = (const char *)cstr_arg(s, calls, arg);
+            LIB(o.ret = binson_parser_string_equals(p, sp)); break;
         }
         case P_PRINT: {
             g_capture = &printed;
@@ -292,6 +314,7 @@ __attribute__((noinline)) void PSession::do_call(const Op &op, Outcome &o) {
         default: o.skipped = true; break;
     }
     block_free(arg); block_free(outb); block_free(wdest); block_free(wb);
+    slot_release();
 }
 
 Outcome PSession::call(const Op &op) {
@@ -329,6 +352,7 @@ Outcome PSession::call(const Op &op) {
     if (!guarded(op, o)) {
         // step budget exceeded inside the library call: deterministic liveness violation
         g_in_library = 0; g_cur_session = nullptr;
+        slot_release();
         o.aborted = true; dead = true;
         sink.fail("C16.budget", fmt("%s made more than %llu token callbacks on a %zu-byte buffer without returning", name, (unsigned long long)budget, bblk.n));
         tr.add(tag + fmt("%s ABORTED cb>%llu", name, (unsigned long long)budget));
@@ -421,6 +445,7 @@ Outcome WSession::call(const Op &op) {
     if (!inited && op.code != W_INIT) { o.skipped = true; return o; }
     if (g_yield_hook) g_yield_hook(Y_CALL);
     bool was_latched = inited && err() != 0;
+    ncalls++;
     Bytes before;
     if (was_latched && cap) before.assign(dblk.p, dblk.p + cap);
     Block arg;
@@ -440,8 +465,22 @@ Outcome WSession::call(const Op &op) {
         case W_BOOL: LIB(o.ret = binson_write_boolean(w, op.a != 0)); break;
         case W_INT: LIB(o.ret = binson_write_integer(w, op.a)); break;
         case W_DOUBLE: { double d; uint64_t bits = (uint64_t)op.a; memcpy(&d, &bits, 8); LIB(o.ret = binson_write_double(w, d)); break; }
-        case W_STRING: mkarg(cstr(op.b), true); LIB(o.ret = binson_write_string(w, (const char *)arg.p)); break;
-        case W_NAME: mkarg(cstr(op.b), true); LIB(o.ret = binson_write_name(w, (const char *)arg.p)); break;
+        case W_STRING: { const char *sp = (const char *)cstr_arg(cstr(op.b), ncalls, arg); LIB(o.ret = binson_write_string(w, sp)); break; }
+        case W_NAME: { const char *sp = (const char *)cstr_arg(cstr(op.b), ncalls, arg); LIB(o.ret = binson_write_name(w, sp)); break; }
+        case W_TO_WRITER: {
+            // binson_parser_to_writer with an auxiliary parser over {"a":{"b":1},"c":2}; op.a selects where that parser stands:
+            // 0 on the scalar "c" (nothing to extract), 1 on the un-entered container "a", 2 parser with a latched error, 3 just initialised, 4 NULL parser
+            static const uint8_t aux[] = {0x40, 0x14, 0x01, 0x61, 0x40, 0x14, 0x01, 0x62, 0x10, 0x01, 0x41, 0x14, 0x01, 0x63, 0x10, 0x02, 0x41};
+            binson_state ast[4]; binson_parser ap; memset(&ap, 0, sizeof ap); ap.state = ast; ap.max_depth = 4;
+            int v = (int)(op.a % 5);
+            LIB(binson_parser_init_object(&ap, aux, sizeof aux));
+            if (v != 3) LIB(binson_parser_go_into_object(&ap));
+            if (v == 0) { LIB(binson_parser_next(&ap)); LIB(binson_parser_next(&ap)); }
+            if (v == 1) LIB(binson_parser_next(&ap));
+            if (v == 2) LIB(binson_parser_next_ensure(&ap, BINSON_TYPE_BOOLEAN));
+            LIB(o.ret = binson_parser_to_writer(v == 4 ? nullptr : &ap, w));
+            break;
+        }
         case W_STRING_LEN: mkarg(op.b, false); LIB(o.ret = binson_write_string_with_len(w, (const char *)arg.p, op.b.size())); break;
         case W_BYTES: mkarg(op.b, false); LIB(o.ret = binson_write_bytes(w, arg.p, op.b.size())); break;
         case W_RAW: mkarg(op.b, false); LIB(o.ret = binson_write_raw(w, arg.p, op.b.size())); break;
@@ -454,6 +493,7 @@ Outcome WSession::call(const Op &op) {
         default: o.skipped = true; break;
     }
     block_free(arg);
+    slot_release();
     if (o.skipped) return o;
     bump(cnt, std::string("api.") + name);
     o.err = err(); o.used = counter();
@@ -465,7 +505,7 @@ Outcome WSession::call(const Op &op) {
     e += fmt(" -> %d e=%s counter=%zu", o.ret ? 1 : 0, err_name(o.err), o.used);
     tr.add(e);
     // ---- C09 writer latch: nothing is stored, every write returns false, flag stays
-    bool is_write = op.code >= W_OBJ_BEGIN && op.code <= W_RAW_NULL && op.code != W_VERIFY && op.code != W_COUNTER;
+    bool is_write = op.code >= W_OBJ_BEGIN && op.code <= W_TO_WRITER && op.code != W_VERIFY && op.code != W_COUNTER;
     if (was_latched && is_write) {
         if (o.ret) sink.fail(std::string("C09.writer.write_true.") + name, "a write returned true after an earlier write had failed");
         if (cap && memcmp(before.data(), dblk.p, cap) != 0) sink.fail(std::string("C09.writer.stored.") + name, "a write stored bytes after an earlier write had failed");
